@@ -1,8 +1,13 @@
 //! C12 (spec/Backends.tla): one binding of the real `sozu_lib::backends::BackendMap` to the spec's
 //! vocabulary, shared by the I->S driver (drive_backends) and the S->I replayer (replay_backends).
 //!
-//! * every spec action is one method here that calls the public sozu API (plus the `retry_force`
-//!   hook `RetryPolicyWrapper::verif_set` to pin / end back-off windows without wall-clock waits);
+//! * every spec action is one method here that calls the public sozu API;
+//! * time: the back-off policy's own clock arithmetic is what is under test. `fail()` / `succeed()` /
+//!   `can_try()` are the real ones on the real `Instant`s; the spec's `Elapse(d)` is executed by moving
+//!   every live backend's `last_try` d seconds into the past (hook `verif_age_by`) BEFORE the next call,
+//!   never by writing a window or a try count. The hook `verif_get` reads (tries, wait, age) for the
+//!   projection. Real time that passes while the harness works adds to every age: the callers bound it
+//!   (a history / run that took longer than their slack is repeated or dropped, never judged);
 //! * `project` is the single projection of the real state to the spec's state record (DESIGN A.5).
 //!
 //! The kit keeps, per cluster, the `Rc<RefCell<Backend>>` handles a session would keep (object ids
@@ -70,6 +75,8 @@ pub struct World {
     /// `Some(n)`: every new backend gets a real `ExponentialBackoffPolicy::new(n)` instead of the budget of 6
     /// hard-coded in `Backend::new` (the field is public), so that short histories reach the exhausted budget
     pub retry_budget: Option<usize>,
+    /// the spec's AgeCap: ages are projected saturating at this many seconds
+    pub age_cap: u64,
 }
 
 pub fn policy_of(name: &str) -> LoadBalancingAlgorithms {
@@ -122,7 +129,7 @@ pub fn addr_table(n: usize, variant: u64, unreachable: usize) -> Vec<SocketAddr>
 
 impl World {
     pub fn new(addrs: Vec<SocketAddr>) -> World {
-        World { map: BackendMap::new(), clusters: BTreeMap::new(), addrs, retry_budget: None }
+        World { map: BackendMap::new(), clusters: BTreeMap::new(), addrs, retry_budget: None, age_cap: 64 }
     }
 
     pub fn sock(&self, addr: i64) -> SocketAddr {
@@ -219,29 +226,13 @@ impl World {
 
     // ------------------------------------------------------------------ back-off
 
-    /// keep a freshly opened back-off window open until the harness ends it (no wall clock)
-    fn pin_window(b: &mut Backend) {
-        if b.retry_policy.can_try() == Some(RetryAction::WAIT) {
-            let tries = b.retry_policy.current_tries();
-            b.retry_policy.verif_set(tries, Duration::from_secs(86_400), Duration::ZERO);
-        }
-    }
-
-    fn pin_all(&mut self, c: &str) {
-        if let Some(k) = self.clusters.get(c) {
-            for o in k.objs.values() {
-                Self::pin_window(&mut o.rc.borrow_mut());
-            }
-        }
-    }
-
-    /// what a session does when a connection attempt to its backend fails
+    /// what a session does when a connection attempt to its backend fails (the policy decides by its own
+    /// clock whether the failure counts, draws the window and stamps `last_try`)
     pub fn retry_fail(&mut self, c: &str, oid: i64) {
         let rc = self.rc(c, oid);
         let mut b = rc.borrow_mut();
         b.failures += 1;
         b.retry_policy.fail();
-        Self::pin_window(&mut b);
     }
 
     pub fn retry_succeed(&mut self, c: &str, oid: i64) {
@@ -251,11 +242,28 @@ impl World {
         b.retry_policy.succeed();
     }
 
-    pub fn elapse(&mut self, c: &str, oid: i64) {
+    /// (current_tries, wait, time since last_try) as the policy's own arithmetic sees them
+    pub fn retry_view(&self, c: &str, oid: i64) -> (usize, Duration, Duration) {
+        self.rc(c, oid).borrow().retry_policy.verif_get()
+    }
+
+    /// S->I only. The policy draws the length of a window at random (unseeded); the generated history goes
+    /// on with the length TLC drew. Only the drawn length is replaced - the try count and `last_try` stay
+    /// what the real `fail()` made them (the caller has checked the real draw against the spec's range).
+    pub fn redraw_window(&mut self, c: &str, oid: i64, secs: u64) {
         let rc = self.rc(c, oid);
         let mut b = rc.borrow_mut();
-        let tries = b.retry_policy.current_tries();
-        b.retry_policy.verif_set(tries, Duration::ZERO, Duration::ZERO);
+        let (tries, _, age) = b.retry_policy.verif_get();
+        b.retry_policy.verif_set(tries, Duration::from_secs(secs), age);
+    }
+
+    /// the spec's Elapse(d): d seconds pass for every live backend of every cluster
+    pub fn elapse_all(&mut self, secs: u64) {
+        for k in self.clusters.values() {
+            for o in k.objs.values() {
+                o.rc.borrow_mut().retry_policy.verif_age_by(Duration::from_secs(secs));
+            }
+        }
     }
 
     // ------------------------------------------------------------------ load accounting
@@ -317,14 +325,8 @@ impl World {
                 ("ok", oid, addr)
             }
             Err(BackendError::NoBackendForCluster(_)) => ("none", NONE, 0),
-            Err(BackendError::ConnectionFailures { backend_address, .. }) => {
-                self.pin_all(c);
-                ("fail", NONE, self.addr_idx(&backend_address))
-            }
-            Err(BackendError::MioConnection(_)) => {
-                self.pin_all(c);
-                ("fail", NONE, 0)
-            }
+            Err(BackendError::ConnectionFailures { backend_address, .. }) => ("fail", NONE, self.addr_idx(&backend_address)),
+            Err(BackendError::MioConnection(_)) => ("fail", NONE, 0),
             Err(BackendError::Status(_)) => ("status", NONE, 0),
         }
     }
@@ -359,6 +361,8 @@ impl World {
         if let Some(k) = self.clusters.get(c) {
             for (oid, o) in &k.objs {
                 let b = o.rc.borrow();
+                let (_, wait, age) = b.retry_policy.verif_get();
+                let left = wait.saturating_sub(age);
                 objs.push(json!({
                     "oid": oid,
                     "id": b.backend_id,
@@ -372,6 +376,12 @@ impl World {
                     "cf": b.health.consecutive_failures.min(hcap),
                     "tries": b.retry_policy.current_tries(),
                     "wait": b.retry_policy.can_try() != Some(RetryAction::OKAY),
+                    // whole seconds (the policy only draws whole seconds; anything else is reported as -1)
+                    "wsec": if wait.subsec_nanos() == 0 { wait.as_secs() as i64 } else { -1 },
+                    "age": age.as_secs().min(self.age_cap),
+                    // what is left of the window, in whole seconds rounded up: the behaviourally relevant part of
+                    // (wait, last_try) - `wsec` and `age` are informative, the legs compare `left`
+                    "left": left.as_secs() + (left.subsec_nanos() > 0) as u64,
                     "conns": b.active_connections,
                     "reqs": b.active_requests,
                     "out": o.out,
